@@ -48,7 +48,7 @@ META = {
             "control symbols); timers: f in 200 kHz..2 MHz, 3-25 events biased to land within +-2 cycles of the 1 ms / 10 us "
             "thresholds, keep-alive response delay per run (or withheld)",
 }
-TIERS = {"quick": {"runs": 4000, "wall": 70}, "thorough": {"runs": 30000, "wall": 900}}
+TIERS = {"quick": {"runs": 12000, "wall": 70}, "thorough": {"runs": 30000, "wall": 900}}
 
 FREQS = [200000, 200000, 250000, 300000, 500000, 500000, 700000, 1000000, 1250000, 2000000]
 
